@@ -736,6 +736,80 @@ func (g *gen) opHistoryQuery(histSubs int) {
 	g.metaCall(s, "wamp.subscription.get_events", List(id), kw)
 }
 
+// tplShared: three or more callees on one shared registration, a member that
+// is not the most recent one unregisters or leaves, then several calls
+// (exercises first / last / round-robin order after a removal).
+func (g *gen) tplShared() {
+	if len(g.alive) < 4 {
+		return
+	}
+	proc := g.pick([]string{"sh.a", "sh.b"})
+	policy := g.pick([]string{"roundrobin", "first", "last", "roundrobin", "random"})
+	members := append([]int(nil), g.alive[1:]...)
+	g.r.Shuffle(len(members), func(i, j int) { members[i], members[j] = members[j], members[i] })
+	n := 3 + g.r.IntN(2)
+	if n > len(members) {
+		n = len(members)
+	}
+	members = members[:n]
+	var recs []regRec
+	for _, s := range members {
+		req := g.nextReq(s)
+		recs = append(recs, regRec{s, req, proc})
+		g.regs = append(g.regs, regRec{s, req, proc})
+		g.callees[s] = true
+		g.msg(s, &Msg{Kind: "reg", Req: req, Opts: Dict(KV{"invoke", Str(policy)}), URI: proc})
+	}
+	caller := g.alive[0]
+	calls := func(k int) {
+		for i := 0; i < k; i++ {
+			req := g.nextReq(caller)
+			g.calls = append(g.calls, callRec{caller, req})
+			g.msg(caller, &Msg{Kind: "call", Req: req, URI: proc, Args: List(Int('l', int64(i))), Kw: Dict()})
+		}
+	}
+	calls(1 + g.r.IntN(3))
+	victim := recs[g.r.IntN(len(recs)-1)] // never the most recent member
+	if g.chance(0.5) {
+		g.msg(victim.sess, &Msg{Kind: "unreg", Req: g.nextReq(victim.sess), Ref: &Ref{Kind: "reg", Sess: victim.sess, Req: victim.req}})
+	} else {
+		g.sc.Ops = append(g.sc.Ops, Op{Kind: "drop", Realm: g.realm[victim.sess], Sess: victim.sess})
+		g.remove(victim.sess)
+	}
+	calls(2 + g.r.IntN(4))
+	g.tag("shared-3-callees-churn")
+}
+
+// tplDuplicateAnswers: a callee answers the same invocation twice (final
+// YIELD then another YIELD or ERROR), also while the caller is still sending
+// chunks of a progressive call.
+func (g *gen) tplDuplicateAnswers() {
+	if len(g.alive) < 3 {
+		return
+	}
+	callee, caller := g.alive[1], g.alive[2]
+	proc := "dup.p"
+	rq := g.nextReq(callee)
+	g.regs = append(g.regs, regRec{callee, rq, proc})
+	g.callees[callee] = true
+	g.msg(callee, &Msg{Kind: "reg", Req: rq, URI: proc})
+	req := g.nextReq(caller)
+	o := Dict()
+	if g.feats[caller]["caller_prog"] && g.chance(0.5) {
+		o = Dict(KV{"progress", Bool(true)})
+	}
+	g.calls = append(g.calls, callRec{caller, req})
+	g.msg(caller, &Msg{Kind: "call", Req: req, Opts: o, URI: proc, Args: List(Int('l', 1)), Kw: Dict()})
+	ref := &Ref{Kind: "inv", Sess: callee, Pick: -1}
+	g.msg(callee, &Msg{Kind: "yield", Ref: ref, Opts: Dict(), Args: List(Str("first")), Kw: Dict()})
+	if g.chance(0.5) {
+		g.msg(callee, &Msg{Kind: "yield", Ref: ref, Opts: Dict(), Args: List(Str("second")), Kw: Dict(), Final: true})
+	} else {
+		g.msg(callee, &Msg{Kind: "err", ErrType: 68, Ref: ref, ErrURI: "app.late", Args: List(), Kw: Dict(), Final: true})
+	}
+	g.tag("duplicate-answer")
+}
+
 type weights struct{ sub, unsub, pub, reg, unreg, call, cancel, yield, leave, join, tick, meta, hist int }
 
 func profileWeights(p string) weights {
@@ -869,6 +943,12 @@ func Generate(profile string, seed uint64, idx int, maxOps, maxSess int) *Scenar
 			g.opMeta()
 		default:
 			g.opHistoryQuery(histSubs)
+		}
+		if (base == "rpc" || base == "lifecycle" || base == "mixed") && g.chance(0.02) {
+			g.tplShared()
+		}
+		if (base == "rpc" || base == "mixed") && g.chance(0.015) {
+			g.tplDuplicateAnswers()
 		}
 		if realms > 1 && g.chance(0.015) {
 			// remove a realm (never realm 0), later traffic to it is refused;
